@@ -523,7 +523,9 @@ def monitorDamping (evs : List Ev) (peer : String) (conns : List ConnInfo) (trig
       if e.peer == peer && e.ev == "dial" && e.t > t0 + 5 * ms && e.t < until_ then
         fails := fails ++ [s!"C12 an outbound attempt was made {(e.t - t0) / ms} ms after a protocol error ({what}): no hold-down"]
     for c in conns do
-      if c.tOpen > t0 + 5 * ms && c.tOpen < until_ && !c.isOut && !c.outbound.isEmpty then
+      -- served = corebgp sent its OPEN on it after the error
+      let tServed := (c.recvs.head?.map (·.2.1)).getD 0
+      if !c.isOut && !c.outbound.isEmpty && tServed > t0 + 5 * ms && tServed < until_ then
         fails := fails ++ [s!"C12 an inbound connection was served during the hold-down that followed {what}"]
   -- and the converse: a hold-down without a protocol error
   match evs.find? fun e => e.peer == peer && e.ev == "log.damp" with
